@@ -34,6 +34,16 @@ CLAIMED = {
          "stream bytes after every call are validated by TLC against the AvroWriter state machine (blocks pinned by AvroFile!ParseFile of the logged "
          "stream, pending block and dump decisions inferred), ReadBack/Durable evaluated in every state, header bytes immutable.",
          "TLA+ state machine (AvroWriter) + TLC trace validation with inferred hidden state", "3/C07"),
+ "C11": ("V: valid generated schemas and single ill-forming mutations of every kind the property lists are given to parse_schema; TLC runs the spec's "
+         "own parser (AvroSchema!Parse: namespace rules, reference resolution, redefinition, enum, default-type and decimal checks) on the same raw tree "
+         "and requires accept/reject to agree, the set of defined full names to be equal, and the returned schema to re-parse to the identical tree.",
+         "TLA+ spec (AvroSchema!Parse) + TLC trace validation of logged parse outcomes", "3/C11"),
+ "C13": ("V: fastavro's canonical text is compared with AvroCanon!CanonText of the spec-parsed tree, re-applied to its own output, compared across "
+         "cosmetic rewrites (whose spec trees TLC first proves equal), and data written under the original are decoded under the canonical schema.",
+         "TLA+ spec (AvroCanon) + TLC trace validation", "3/C13"),
+ "C14": ("V: CRC-64-AVRO results are compared with Rabin!FP written in TLA+ from the specification (bit-serial definition and table form, equivalence "
+         "model-checked); named digests are compared with hashlib (uninterpreted in the spec); unknown names must raise ValueError.",
+         "TLA+ spec (Rabin) + TLC trace validation; hashlib as oracle for uninterpreted digests", "3/C14"),
 }
 checks = []
 for p in props:
